@@ -61,6 +61,10 @@ def check(ck):
             shapes["nat=%d ne=%d" % (nat, ne)] = shapes.get("nat=%d ne=%d" % (nat, ne), 0) + 1
             apos = ck.rng.random((nat, 3)) @ lat
             apos[:, 2] = ck.rng.normal(size=nat) * ck.rng.choice([0.0, 0.5, 2.0])
+            if rep % 2:
+                sh = ck.rng.integers(-2, 3, size=(nat, 3))
+                sh[:, 2] = 0
+                apos = apos + sh @ lat  # ions listed in other in-plane periodic images
             nconf = 3
             frac = ck.rng.random((nconf, ne, 3))
             frac[0, :, :2] = frac[0, :, :2] * 5 - 2.5  # outside the cell in the plane
